@@ -464,6 +464,7 @@ func runC05(c *Ctx) {
 		R.Add("S.concat-all", "(*service.packageParse).completePack / all slots, ascending", "", st, d)
 		R.Require("S.concat-all", 1, "")
 	}
+	c.completeCountRule()
 	// the bodies kept in the slot table are the bodies of the packets: they must not share storage with the read buffer
 	// or the pending buffer, which the next read rewrites (the analysis is C09's, run here as well: today's symptom
 	// "three copies of the last packet" is a reassembly failure)
@@ -1090,4 +1091,171 @@ func (c *Ctx) eachOnceRule() {
 		R.Fatal("S.each-once: no call of completePack found in the family of packageParse.parse (anchor)")
 	}
 	R.Require("S.each-once", 1, "")
+}
+
+// completeCountRule (shared by C05 and C06): where the completion of a transfer is decided by comparing a number with the
+// total the header announces, that number is counted in the call that decides - it is made of constants, increments and
+// lengths only. A number loaded from a field, a map or a package variable survives between packets: a retransmitted
+// packet is counted again and an incomplete set is delivered (and answered) as complete. A design without such a
+// comparison (a set of indices, a search for an empty slot) is not judged by this rule.
+func (c *Ctx) completeCountRule() {
+	R := c.R
+	R.Rules["S.complete-count"] = "the number that the completion test compares with the announced total (SubPackageSum) is counted in the deciding call from the slots as they are now - constants, increments, lengths, results of package helpers built the same way; it is not loaded from a field, map or package variable that lives across packets (there a retransmitted packet would count twice)"
+	cp := c.P.Method("service", "packageParse", "completePack")
+	if cp == nil {
+		R.Add("S.complete-count", "(*service.packageParse).completePack", "", report.Violated, "completePack not found")
+		return
+	}
+	fromSum := func(v ssa.Value) bool {
+		cands := c.resolveParam(v, "service")
+		if len(cands) == 0 {
+			return false
+		}
+		for _, cv := range cands {
+			os := c.origins(cv, nil, nil)
+			if len(os) == 0 {
+				return false
+			}
+			for _, o := range os {
+				if !(o.Kind == "field" && strings.HasSuffix(o.Name, ".SubPackageSum")) {
+					return false
+				}
+			}
+		}
+		return true
+	}
+	// kept reports the first memory cell (other than a local variable) the value is read from
+	var kept func(v ssa.Value, seen map[ssa.Value]bool, depth int) string
+	kept = func(v ssa.Value, seen map[ssa.Value]bool, depth int) string {
+		if v == nil || seen[v] || depth > 6 {
+			return ""
+		}
+		seen[v] = true
+		switch x := v.(type) {
+		case *ssa.Const:
+			return ""
+		case *ssa.Phi:
+			for _, e := range x.Edges {
+				if d := kept(e, seen, depth); d != "" {
+					return d
+				}
+			}
+		case *ssa.BinOp:
+			if d := kept(x.X, seen, depth); d != "" {
+				return d
+			}
+			return kept(x.Y, seen, depth)
+		case *ssa.Convert:
+			return kept(x.X, seen, depth)
+		case *ssa.ChangeType:
+			return kept(x.X, seen, depth)
+		case *ssa.Parameter:
+			for _, a := range c.resolveParam(x, "service") {
+				if a != ssa.Value(x) {
+					if d := kept(a, seen, depth+1); d != "" {
+						return d
+					}
+				}
+			}
+		case *ssa.Extract:
+			return kept(x.Tuple, seen, depth)
+		case *ssa.Call:
+			if _, isB := x.Call.Value.(*ssa.Builtin); isB {
+				return "" // len / cap / min / max of something: the state as it is now
+			}
+			if sc := x.Call.StaticCallee(); sc != nil && sc.Pkg == cp.Pkg && len(sc.Blocks) > 0 {
+				for _, b := range sc.Blocks {
+					if ret, isR := b.Instrs[len(b.Instrs)-1].(*ssa.Return); isR {
+						for _, rv := range ret.Results {
+							if d := kept(rv, seen, depth+1); d != "" {
+								return d
+							}
+						}
+					}
+				}
+			}
+		case *ssa.UnOp:
+			if x.Op != token.MUL {
+				return kept(x.X, seen, depth)
+			}
+			switch a := x.X.(type) {
+			case *ssa.Alloc:
+				// a local variable (spilled or captured): what was stored into it
+				for _, ref := range *a.Referrers() {
+					if st, isSt := ref.(*ssa.Store); isSt && st.Addr == ssa.Value(a) {
+						if d := kept(st.Val, seen, depth); d != "" {
+							return d
+						}
+					}
+				}
+			case *ssa.FieldAddr:
+				if pt, isPtr := a.X.Type().Underlying().(*types.Pointer); isPtr {
+					if stt, isSt := pt.Elem().Underlying().(*types.Struct); isSt {
+						return "field " + stt.Field(a.Field).Name() + " (" + c.P.RelPos(x.Pos()) + ")"
+					}
+				}
+				return "a struct field (" + c.P.RelPos(x.Pos()) + ")"
+			case *ssa.Global:
+				return "package variable " + a.Name() + " (" + c.P.RelPos(x.Pos()) + ")"
+			case *ssa.IndexAddr:
+				return "an element of a stored slice (" + c.P.RelPos(x.Pos()) + ")"
+			case *ssa.FreeVar:
+				return ""
+			}
+		case *ssa.Lookup:
+			if _, isMap := x.X.Type().Underlying().(*types.Map); isMap {
+				return "a map entry (" + c.P.RelPos(x.Pos()) + ")"
+			}
+		}
+		return ""
+	}
+	n := 0
+	for _, ff := range c.familyOf(cp) {
+		for _, b := range ff.Blocks {
+			for _, ins := range b.Instrs {
+				cmp, isCmp := ins.(*ssa.BinOp)
+				if !isCmp {
+					continue
+				}
+				switch cmp.Op {
+				case token.EQL, token.NEQ, token.GEQ, token.LEQ, token.LSS, token.GTR:
+				default:
+					continue
+				}
+				if !types.Identical(cmp.X.Type().Underlying(), types.Typ[types.Int]) {
+					continue
+				}
+				var count ssa.Value
+				switch {
+				case fromSum(cmp.Y) && !fromSum(cmp.X):
+					count = cmp.X
+				case fromSum(cmp.X) && !fromSum(cmp.Y):
+					count = cmp.Y
+				default:
+					continue
+				}
+				// only comparisons that decide a branch, and only counts (package numbers are compared with the total too:
+				// those come from the header)
+				isSeq := false
+				for _, o := range c.origins(count, nil, nil) {
+					if o.Kind == "field" && (strings.HasSuffix(o.Name, ".SubPackageNo") || strings.HasSuffix(o.Name, ".SubPackageSum")) {
+						isSeq = true
+					}
+				}
+				if isSeq {
+					continue
+				}
+				if _, isLen := isBuiltinCall(instrOf(count), "len"); isLen {
+					continue // len(table) against the total: a shape test, not the count of received parts
+				}
+				n++
+				st, d := report.Discharged, ""
+				if cell := kept(count, map[ssa.Value]bool{}, 0); cell != "" {
+					st, d = report.Violated, "the number compared with the announced total is read from "+cell+", which lives across packets: a retransmitted packet is counted again and an incomplete transfer is delivered as complete"
+				}
+				R.Add("S.complete-count", fmt.Sprintf("%s / count compared with the announced total #%d", shortFn(ff), n), c.P.RelPos(cmp.Pos()), st, d)
+			}
+		}
+	}
+	R.Notes["complete_count_comparisons"] = n
 }
